@@ -87,13 +87,13 @@ func (w *world) blobBytes(b *Blob) []byte {
 	case "key":
 		return w.keys[b.N%len(w.keys)].ser
 	case "addr":
-		a := w.addrs[b.N%len(w.addrs)]
+		a := w.addrs[b.N%w.nAddrs]
 		return a[:]
 	}
 	return w.bad[b.N%len(w.bad)]
 }
 
-func (w *world) idBytes(i int) []byte { return w.ids[i%len(w.ids)] }
+func (w *world) idBytes(i int) []byte { return w.ids[i%nPoolIDs] }
 
 func (w *world) attrKey(k int) []byte {
 	if k == 0 {
@@ -253,12 +253,12 @@ func (w *world) encode(o *Op) encoded {
 		proofAt = len(sink.Bytes())
 		w.encProof(sink, o.Proof)
 	case "addRecovery":
-		a := w.addrs[o.Addr%len(w.addrs)]
+		a := w.addrs[o.Addr%w.nAddrs]
 		utils.EncodeAddress(sink, a)
 		sink.WriteVarBytes(w.blobBytes(o.Operator))
 	case "changeRecovery":
-		utils.EncodeAddress(sink, w.addrs[o.Addr%len(w.addrs)])
-		utils.EncodeAddress(sink, w.addrs[o.Addr2%len(w.addrs)])
+		utils.EncodeAddress(sink, w.addrs[o.Addr%w.nAddrs])
+		utils.EncodeAddress(sink, w.addrs[o.Addr2%w.nAddrs])
 	case "setRecovery":
 		e.grp = w.encGroup(o.Group)
 		sink.WriteVarBytes(e.grp)
@@ -430,7 +430,7 @@ func (w *world) coqBlob(b *Blob) string {
 	case "key":
 		return fmt.Sprintf("(BKey %d)", b.N%len(w.keys))
 	case "addr":
-		return fmt.Sprintf("(BAddr %d)", b.N%len(w.addrs))
+		return fmt.Sprintf("(BAddr %d)", b.N%w.nAddrs)
 	}
 	return fmt.Sprintf("(BBad %d)", b.N%len(w.bad))
 }
@@ -473,7 +473,7 @@ var allMethods = []string{
 // coqOp prints the operation as the model sees it, derived from the encoded bytes where the
 // model's view depends on how the bytes parse (groups, signer lists, the proof tail).
 func (w *world) coqOp(o *Op, e encoded) string {
-	id := o.ID % len(w.ids)
+	id := o.ID % nPoolIDs
 	c := ctor[o.M]
 	sgn := func() string {
 		s, ok := w.parseSigners(e.sgn)
@@ -511,9 +511,9 @@ func (w *world) coqOp(o *Op, e encoded) string {
 	case "removeAttributeByController":
 		return fmt.Sprintf("%s %d %d %s", c, id, o.Path, w.coqProof(e.tail))
 	case "addRecovery":
-		return fmt.Sprintf("%s %d %d %s", c, id, o.Addr%len(w.addrs), w.coqBlob(o.Operator))
+		return fmt.Sprintf("%s %d %d %s", c, id, o.Addr%w.nAddrs, w.coqBlob(o.Operator))
 	case "changeRecovery":
-		return fmt.Sprintf("%s %d %d %d", c, id, o.Addr%len(w.addrs), o.Addr2%len(w.addrs))
+		return fmt.Sprintf("%s %d %d %d", c, id, o.Addr%w.nAddrs, o.Addr2%w.nAddrs)
 	case "setRecovery":
 		return fmt.Sprintf("%s %d %s %d", c, id, coqOptGroup(w.parseGroup(e.grp, 0)), o.Idx)
 	case "updateRecovery":
